@@ -185,10 +185,18 @@ fn validate_ratios(
     resample_ratio: f64,
     max_resample_ratio_relative: f64,
 ) -> Result<(), ResamplerConstructionError> {
-    if resample_ratio <= 0.0 {
+    if !(resample_ratio > 0.0 && resample_ratio.is_finite()) {
         return Err(ResamplerConstructionError::InvalidRatio(resample_ratio));
     }
-    if max_resample_ratio_relative < 1.0 {
+    if !(max_resample_ratio_relative >= 1.0 && max_resample_ratio_relative.is_finite()) {
+        return Err(ResamplerConstructionError::InvalidRelativeRatio(
+            max_resample_ratio_relative,
+        ));
+    }
+    // The extreme reachable ratios must be positive, finite numbers as well.
+    if !((resample_ratio * max_resample_ratio_relative).is_finite()
+        && resample_ratio / max_resample_ratio_relative >= f64::MIN_POSITIVE)
+    {
         return Err(ResamplerConstructionError::InvalidRelativeRatio(
             max_resample_ratio_relative,
         ));
